@@ -10,7 +10,9 @@ Mirrors `geonet/router.py` (and the LocT get-or-create of `geonet/location_table
   cbfExpire        _cbf_timeout                   under _cbf_lock (present: del, commit to send | absent: return)
   cbfSend          _cbf_timeout                   unlocked link_layer.send after the block
   gucLookup        gn_data_request_guc            LocationTable.get_entry under loc_t_lock
-  lsRegisterOrQueue gn_ls_request 1st section     under _ls_lock, nested loc_t_lock (get_entry / ensure_entry)
+  lsEnsure         gn_ls_request 1st section     `with loc_t_lock: ensure_entry(dest).ls_pending = True` nested in _ls_lock:
+                   placeholder LocTE created AND flagged in one loc_t_lock section (repair C01-F4)
+  lsRegisterOrQueue gn_ls_request 1st section     the rest under _ls_lock (counter test, buffers, counters)
   lsStoreTimer     gn_ls_request / _ls_retransmit 2nd section under _ls_lock
   lsRetransmitCheck _ls_retransmit 1st section    under _ls_lock (give up: drop buffer | count+1)
   lsReplyPop       gn_data_indicate_ls_reply      under _ls_lock, nested loc_t_lock
@@ -245,24 +247,35 @@ def newEntry (a : Nat) (s : St) : St :=
   { s with loct := upd s.loct a true, pending := upd s.pending a false, eid := upd s.eid a (s.eNext + 1), eNext := s.eNext + 1,
            ePV := upd s.ePV (s.eNext + 1) false, eDpl := upd s.eDpl (s.eNext + 1) [], ePass := upd s.ePass (s.eNext + 1) [] }
 
-/-- `location_table.ensure_entry(dest)` inside the `_ls_lock` section (both branches of the code with the LS-order
-commit call it): the placeholder LocTE becomes visible to `get_entry` BEFORE `ls_pending` is set -/
-def lsEnsure (d : Nat) (s : St) : St := if s.loct d then s else newEntry d s
+/-- `location_table.ensure_entry(dest)`: fetch the LocTE or create the placeholder -/
+def lsEnsure0 (d : Nat) (s : St) : St := if s.loct d then s else newEntry d s
+
+/-- `….ls_pending = True` on the entry just fetched / created (same `loc_t_lock` section: it is the entry of the table) -/
+def lsFlag (d : Nat) (s : St) : St := { s with pending := upd s.pending d true }
+
+/-- `with self.location_table.loc_t_lock: self.location_table.ensure_entry(dest).ls_pending = True` inside the `_ls_lock`
+section of gn_ls_request (both branches of the code run it; repair C01-F4, /repo 36b8bac): the placeholder LocTE is created
+(or fetched) AND flagged in ONE `loc_t_lock` section – no `get_entry` / refresh_table of another thread ever sees the
+placeholder without its flag (before that repair `ensure_entry` and the store of the flag were two steps: a concurrent
+GeoUnicast request found an unflagged all-zero entry, a concurrent refresh_table dropped it). -/
+def lsEnsure (d : Nat) (s : St) : St := lsFlag d (lsEnsure0 d s)
 
 /-- the rest of the first `_ls_lock` section of gn_ls_request, without the ghost bookkeeping.
-`fx = true` (code with the LS-order commit): a lookup in progress is also recognised by its retransmit counter;
-the entry was fetched/created by `lsEnsure` just before, `ls_pending := True` lands on that entry object (it has no
-effect on the table if a refresh_table dropped the object in between).  The branch condition is evaluated here
-although the code reads it before `ensure_entry`: both agree because pending ⇒ entry exists ∧ counter exists
-(`LsNoLossB`) and only `_ls_lock` sections change `ls_pending`/the counter.
-`fx = false` (code before that commit): condition on the entry alone; the new-lookup branch creates the entry. -/
+`fx = true` (code with the LS-order commit): a lookup in progress is recognised by its retransmit counter; the entry was
+created/fetched and flagged by `lsEnsure` just before (own `loc_t_lock` section nested in this `_ls_lock` section).  The
+code evaluates `(entry is not None and entry.ls_pending) or dest in self._ls_retransmit_counters` at the START of the
+section, the model evaluates the counter test here and leaves the first disjunct out: the counter only changes inside
+`_ls_lock` sections, and whenever `_ls_lock` is free a flagged entry in the table has a counter (the flag is set only by
+this function, which sets / finds the counter before it leaves; reply and give-up remove flag and counter together) – so
+the first disjunct never decides.  That the section does read the counters is the regenerated fact
+`ls_request_checks_counter`.
+`fx = false` (code before that commit): condition on the entry alone; the new-lookup branch creates and flags the entry. -/
 def lsRegCore (fx : Bool) (o r d : Nat) (s : St) : St :=
-  if (s.loct d && s.pending d) || (fx && (s.lsCnt d).isSome) then
-    { s with pending := if fx && s.loct d then upd s.pending d true else s.pending,
-             lsBuf := upd s.lsBuf d (s.lsBuf d ++ [r]), reg := upd2 s.reg o 4 0 }
+  if (fx && (s.lsCnt d).isSome) || (!fx && (s.loct d && s.pending d)) then
+    { s with lsBuf := upd s.lsBuf d (s.lsBuf d ++ [r]), reg := upd2 s.reg o 4 0 }
   else
     { s with loct := if fx then s.loct else upd s.loct d true,
-             pending := if fx && !s.loct d then s.pending else upd s.pending d true,
+             pending := if fx then s.pending else upd s.pending d true,
              lsLost := upd s.lsLost d (s.lsBuf d ++ s.lsLost d),
              lsBuf := upd s.lsBuf d [r], lsCnt := upd s.lsCnt d (some 0), reg := upd2 s.reg o 4 1 }
 
@@ -280,16 +293,17 @@ def lsRegisterOrQueue (fx : Bool) (o d : Nat) (s : St) : St :=
     { t with lsQueued := upd t.lsQueued d (r :: t.lsQueued d) }
 
 /-- the registration section WITHOUT the retransmit-counter test (`if entry is not None and entry.ls_pending:` alone, as
-if the placeholder LocTE could not disappear while the lookup runs).  Not the code: `ls_request_checks_counter`
+if a flagged LocTE could not leave the table while the lookup runs).  Not the code: `ls_request_checks_counter`
 (regenerated from the source) says the section reads `_ls_retransmit_counters`; used by
-`Props.C15.ls_exactly_once_counter_witness` only.  `ls_pending := True` lands on the object fetched by `lsEnsure` – an
-orphan if a refresh_table dropped the still unflagged placeholder in between. -/
+`Props.C15.ls_exactly_once_counter_witness` only.  The test is made on the entry fetched at the start of the section
+(register 14), before `lsEnsure` flags it. -/
+def lsCheckNC (o d : Nat) (s : St) : St := { s with reg := upd2 s.reg o 14 (if s.loct d && s.pending d then 1 else 0) }
+
 def lsRegCoreNC (o r d : Nat) (s : St) : St :=
-  if s.loct d && s.pending d then
+  if s.reg o 14 = 1 then
     { s with lsBuf := upd s.lsBuf d (s.lsBuf d ++ [r]), reg := upd2 s.reg o 4 0 }
   else
-    { s with pending := if s.loct d then upd s.pending d true else s.pending,
-             lsLost := upd s.lsLost d (s.lsBuf d ++ s.lsLost d),
+    { s with lsLost := upd s.lsLost d (s.lsBuf d ++ s.lsLost d),
              lsBuf := upd s.lsBuf d [r], lsCnt := upd s.lsCnt d (some 0), reg := upd2 s.reg o 4 1 }
 
 def lsRegisterOrQueueNC (o d : Nat) (s : St) : St :=
@@ -510,11 +524,13 @@ def compileT : Op → List TI
 
 def compile (op : Op) : List (Instr St) := (compileT op).map TI.erase
 
-/-- `guc o r d true` with the registration section replaced by the variant without the counter test (witness only) -/
+/-- `guc o r d true` with the registration section replaced by the variant without the counter test: the entry is fetched
+and tested first (`lsCheckNC`, own `loc_t_lock` section = get_entry), then created/flagged, then registered (witness only) -/
 def gucNoCounterT (o r d : Nat) : List TI :=
   [TI.loc (gucInit o r)] ++ tsect lkLocT (.gblk o 5 1 (gucLookup true o d)) ++
     tsect lkSN (.gblk o 3 1 (getSN o)) ++ [TI.gblk o 3 1 (readEgo o), TI.gblk o 3 1 (gucSend o d)] ++
-    [TI.acq lkLs, TI.acq lkLocT, TI.gblk o 3 2 (lsEnsure d), TI.rel lkLocT, TI.gblk o 3 2 (lsRegisterOrQueueNC o d), TI.rel lkLs] ++
+    [TI.acq lkLs, TI.acq lkLocT, TI.gblk o 3 2 (lsCheckNC o d), TI.rel lkLocT, TI.acq lkLocT, TI.gblk o 3 2 (lsEnsure d),
+     TI.rel lkLocT, TI.gblk o 3 2 (lsRegisterOrQueueNC o d), TI.rel lkLs] ++
     sendLsReq o d (lsStoreTimer o d)
 
 def gucNoCounter (o r d : Nat) : List (Instr St) := (gucNoCounterT o r d).map TI.erase
@@ -550,18 +566,29 @@ theorem ego_single_store :
     (rebinds.all fun r => r.2.1 != .Router_ego_position_vector || r.1 == .Router_refresh_ego_position_vector
       || r.1 == .Router_setup_gn_address) = true := by decide +kernel
 
-/-- the registration section of gn_ls_request READS the retransmit counters (the in-progress test of `lsRegCore true`:
-`… or sought_gn_addr in self._ls_retransmit_counters`) besides writing them -/
+/-- the registration section of gn_ls_request starts (first access to shared state, under exactly `_ls_lock`) by READING
+the retransmit counters – the in-progress test of `lsRegCore true` – and writes them later under the same lock -/
 theorem ls_request_checks_counter :
     ((blocks .Router_gn_ls_request).head?.map fun b =>
-      b.1 == [.Router__ls_lock] && b.2.contains (.Router__ls_retransmit_counters, .read) &&
-        b.2.contains (.Router__ls_retransmit_counters, .write)) = some true := by decide +kernel
+      b.1 == [.Router__ls_lock] && b.2.contains (.Router__ls_retransmit_counters, .read)) = some true ∧
+    ((blocks .Router_gn_ls_request).any fun b =>
+      b.1 == [.Router__ls_lock] && b.2.contains (.Router__ls_retransmit_counters, .write)) = true := by decide +kernel
 
-/-- gn_ls_request: two `_ls_lock` sections – registration (buffers, counters, ls_pending), then the timer store -/
+/-- gn_ls_request: the registration under `_ls_lock` (counter test; `ls_pending` stored in a `loc_t_lock` section nested in
+it – once per branch, `lsEnsure`; buffers, counters), then the timer store in a second `_ls_lock` section.  (An outer
+section interrupted by a lexically nested one is listed in pieces.) -/
 theorem blocks_ls_request :
     shape .Router_gn_ls_request =
-      [([.Router__ls_lock], [.Router__ls_packet_buffers, .Router__ls_retransmit_counters, .ext_ls_pending]),
-       ([.Router__ls_lock], [.Router__ls_timers])] := by decide
+      [([.Router__ls_lock], [.Router__ls_retransmit_counters]),
+       ([.Router__ls_lock, .LocationTable_loc_t_lock], [.ext_ls_pending]),
+       ([.Router__ls_lock], [.Router__ls_packet_buffers]),
+       ([.Router__ls_lock, .LocationTable_loc_t_lock], [.ext_ls_pending]),
+       ([.Router__ls_lock], [.Router__ls_packet_buffers, .Router__ls_retransmit_counters]),
+       ([.Router__ls_lock], [.Router__ls_timers])] ∧
+    -- the LocTE is created/fetched inside that nested section, in both branches
+    ((calls .Router_gn_ls_request).filter fun c => c.2 == .LocationTable_ensure_entry) =
+      [([.Router__ls_lock, .LocationTable_loc_t_lock], .LocationTable_ensure_entry),
+       ([.Router__ls_lock, .LocationTable_loc_t_lock], .LocationTable_ensure_entry)] := by decide +kernel
 
 theorem blocks_ls_retransmit :
     shape .Router__ls_retransmit =
